@@ -2,7 +2,7 @@
 import os
 
 from . import core
-from .rules import ed, ts, mt
+from .rules import ed, ts, mt, nl
 
 UNITS = {
     "selftest-cpp": (os.path.join(core.VERIF, "selftest", "positives.cpp"), "c++", ()),
@@ -57,3 +57,9 @@ def run(P, C, engines):
         ev = mt.Flow(f, False, {}).run()
         st = [s for (k, i, s, fld, b) in ev if k == "store" and fld == "state"]
         C.selftest("MT-1", bool(st) and not st[0][0], "store to state without the mutex flagged")
+    if "nl1" in engines:
+        fs = {f.name: f for f in P.functions.values() if f.unit == "selftest-cpp" and f.name.startswith("st_nl1")}
+        b = nl.site_verdicts(fs["st_nl1_blind"], ())
+        g = nl.site_verdicts(fs["st_nl1_tested"], ())
+        C.selftest("NL-1", any(a["bad"] for a in b.values()) and bool(g) and not any(a["bad"] for a in g.values()),
+                   "blind dereference of a nullable array flagged, tested twin silent")
